@@ -1110,40 +1110,40 @@ func c10Prop(rec *verifx.Recorder) func(rt *rapid.T) {
 		}
 		actions := map[string]func(*rapid.T){
 			"":                 func(*rapid.T) { h.invariant() },
-			"put":              count("put", h.opPut),
-			"put-again":        count("put", h.opPut),
-			"txn":              count("txn", h.opTxn),
-			"txn-again":        count("txn", h.opTxn),
-			"delete":           count("delete", h.opDelete),
-			"get":              count("get", func() { h.opGet(h.act, rapid.Bool().Draw(rt, "viaTxn")) }),
-			"get-standby":      count("get-standby", func() { h.opGet(h.sby, rapid.Bool().Draw(rt, "viaTxn")) }),
-			"list":             count("list", func() { h.opList(h.act) }),
-			"list-standby":     count("list", func() { h.opList(h.sby) }),
-			"crypt":            count("encrypt-decrypt", h.opCrypt),
-			"rotate":           count("rotate", func() { h.rotate(rapid.IntRange(0, 9).Draw(rt, "withUpgrade") < 7) }),
-			"rotate-again":     count("rotate", func() { h.rotate(rapid.IntRange(0, 9).Draw(rt, "withUpgrade") < 7) }),
-			"rotate-root-key":  count("rotate-root-key", h.rotateRoot),
-			"seal-active":      count("seal-active", func() { h.opSeal(h.act) }),
-			"seal-standby":     count("seal-standby", func() { h.opSeal(h.sby) }),
-			"unseal-active":    count("unseal-active", func() { h.opUnseal(h.act) }),
-			"unseal-standby":   count("unseal-standby", func() { h.opUnseal(h.sby) }),
-			"reload-keyring":   count("reload-keyring", func() { h.reloadKeyring(h.act); h.reloadKeyring(h.sby) }),
-			"reload-root-key":  count("reload-root-key", func() { h.reloadRootKey(h.act); h.reloadRootKey(h.sby) }),
-			"create-upgrade": count("create-upgrade", func() {
+			"01-put":              count("put", h.opPut),
+			"24-put-again":        count("put", h.opPut),
+			"03-txn":              count("txn", h.opTxn),
+			"25-txn-again":        count("txn", h.opTxn),
+			"14-delete":           count("delete", h.opDelete),
+			"04-get":              count("get", func() { h.opGet(h.act, rapid.Bool().Draw(rt, "viaTxn")) }),
+			"08-get-standby":      count("get-standby", func() { h.opGet(h.sby, rapid.Bool().Draw(rt, "viaTxn")) }),
+			"15-list":             count("list", func() { h.opList(h.act) }),
+			"21-list-standby":     count("list", func() { h.opList(h.sby) }),
+			"16-crypt":            count("encrypt-decrypt", h.opCrypt),
+			"02-rotate":           count("rotate", func() { h.rotate(rapid.IntRange(0, 9).Draw(rt, "withUpgrade") < 7) }),
+			"26-rotate-again":     count("rotate", func() { h.rotate(rapid.IntRange(0, 9).Draw(rt, "withUpgrade") < 7) }),
+			"09-rotate-root-key":  count("rotate-root-key", h.rotateRoot),
+			"05-seal-active":      count("seal-active", func() { h.opSeal(h.act) }),
+			"10-seal-standby":     count("seal-standby", func() { h.opSeal(h.sby) }),
+			"06-unseal-active":    count("unseal-active", func() { h.opUnseal(h.act) }),
+			"11-unseal-standby":   count("unseal-standby", func() { h.opUnseal(h.sby) }),
+			"17-reload-keyring":   count("reload-keyring", func() { h.reloadKeyring(h.act); h.reloadKeyring(h.sby) }),
+			"18-reload-root-key":  count("reload-root-key", func() { h.reloadRootKey(h.act); h.reloadRootKey(h.sby) }),
+			"19-create-upgrade": count("create-upgrade", func() {
 				if h.term < 2 {
 					h.rotate(true)
 					return
 				}
 				h.createUpgrade(uint32(rapid.IntRange(2, int(h.term)).Draw(rt, "upgradeTerm")))
 			}),
-			"destroy-upgrade": count("destroy-upgrade", func() {
+			"20-destroy-upgrade": count("destroy-upgrade", func() {
 				h.destroyUpgrade(uint32(rapid.IntRange(2, int(h.term)+1).Draw(rt, "upgradeTerm")))
 			}),
-			"standby-walk":   count("standby-walk", func() { h.walk(h.sby) }),
-			"active-walk":    count("active-walk", func() { h.walk(h.act) }),
-			"standby-follow": count("standby-follow", func() { h.follow(h.sby) }),
-			"failover":       count("failover", h.opFailover),
-			"autorotate-check": count("autorotate-check", func() {
+			"13-standby-walk":   count("standby-walk", func() { h.walk(h.sby) }),
+			"22-active-walk":    count("active-walk", func() { h.walk(h.act) }),
+			"07-standby-follow": count("standby-follow", func() { h.follow(h.sby) }),
+			"12-failover":       count("failover", h.opFailover),
+			"23-autorotate-check": count("autorotate-check", func() {
 				n := h.act
 				var reason string
 				var err error
